@@ -359,7 +359,7 @@ impl Check for C04 {
         while ids.len() < 2 { ids.insert(spare); spare += 1; }
         let ids: Vec<u8> = ids.into_iter().collect();
         let reps: BTreeMap<u8, World> = ids.iter().map(|id| (*id, World::new(&env.data, trace.salt, t0))).collect();
-        let mut x = Exec { l, reps, ids, oneshot_rr: 0, bound: BTreeMap::new(), last_lines: BTreeMap::new() };
+        let mut x = Exec { l, reps, ids, oneshot_rr: 0, bound: BTreeMap::new(), maybe_bound: BTreeMap::new(), last_lines: BTreeMap::new() };
         let mut last_t = t0;
 
         for (ei, ev) in trace.events.iter().enumerate() {
@@ -435,6 +435,7 @@ impl Check for C04 {
                     x.l.session_new(ev.actor, lang);
                     x.reps.get_mut(&ev.actor).unwrap().session_new(ev.actor, lang);
                     x.bound.insert(ev.actor, BTreeMap::new());
+                    x.maybe_bound.remove(&ev.actor);
                     x.last_lines.remove(&ev.actor);
                 }
                 Op::Execute { lang, text } => {
@@ -526,6 +527,9 @@ struct Exec {
     oneshot_rr: usize,
     /// probes bound per live session (client -> name -> value)
     bound: BTreeMap<u8, BTreeMap<String, f64>>,
+    /// probe names that occurred in an ASSIGNMENT line of any text given to the session, whatever became of
+    /// that evaluation (an unwound step may have bound them before it was lost)
+    maybe_bound: BTreeMap<u8, BTreeSet<String>>,
     last_lines: BTreeMap<u8, usize>,
 }
 
@@ -609,7 +613,10 @@ impl Exec {
         }
         // persistence and isolation of probes
         let mine = self.bound.get(&actor).cloned().unwrap_or_default();
-        let newly = check_probes(rep, ei, text, o, &mine, &self.bound, "session");
+        for l in text.lines.iter() { if let Line::Sem(Stmt::Assign { name, .. }) = l { self.maybe_bound.entry(actor).or_default().insert(name.key()); } }
+        // a probe this session may have bound itself in a step that was lost is no evidence of a leak
+        let others: BTreeMap<u8, BTreeMap<String, f64>> = { let own = self.maybe_bound.get(&actor).cloned().unwrap_or_default(); self.bound.iter().map(|(a, m)| (*a, m.iter().filter(|(k, _)| !own.contains(*k)).map(|(k, v)| (k.clone(), *v)).collect())).collect() };
+        let newly = check_probes(rep, ei, text, o, &mine, &others, "session");
         if let Some(m) = self.bound.get_mut(&actor) { m.extend(newly); }
     }
 }
